@@ -31,12 +31,16 @@ func init() {
 					// exclusivity across a daemon restart (the pool is rebuilt from the stored records by Local.load): the
 					// daemon world of C05 with its restart / crash ops; its double-allocation and lost-binding monitors count
 					// for C01 under their own names
-					sub := &Ctx{Tier: c.Tier, Seed: c.Seed, R: c.R, Dist: c.Dist, Extra: c.Extra, Replay: c.Replay}
-					runDaemonWorld(sub, "C05", nil)
-					c.Cases = append(c.Cases, sub.Cases...)
-					for _, v := range sub.Viol {
-						if v.Key == "C05/double-allocation" || v.Key == "C05/restart/binding-lost" || v.Key == "C05/restart/two-records-one-address" {
-							c.Violate("C01/daemon"+strings.TrimPrefix(v.Key, "C05"), v.What, v.Lines...)
+					// … and the request the daemon builds for a repeated ADD (the stored address and interface it pins the pool to):
+					// the same world without restarts (C04's mix of repeated ADDs and DELs), its "repeated ADD got another address" monitor
+					for _, focus := range []string{"C05", "C04"} {
+						sub := &Ctx{Tier: c.Tier, Seed: c.Seed, R: c.R, Dist: c.Dist, Extra: c.Extra, Replay: c.Replay}
+						runDaemonWorld(sub, focus, nil)
+						c.Cases = append(c.Cases, sub.Cases...)
+						for _, v := range sub.Viol {
+							if k, ok := c01DaemonKeys[v.Key]; ok {
+								c.Violate(k, v.What, v.Lines...)
+							}
 						}
 					}
 				}
@@ -55,8 +59,8 @@ func init() {
 					sub := &Ctx{Tier: c.Tier, Seed: c.Seed, R: c.R, Dist: c.Dist, Extra: c.Extra, Replay: c.Replay}
 					l, o := runDaemonWorld(sub, "C05", ops)
 					for _, v := range sub.Viol {
-						if v.Key == "C05/double-allocation" || v.Key == "C05/restart/binding-lost" || v.Key == "C05/restart/two-records-one-address" {
-							c.Violate("C01/daemon"+strings.TrimPrefix(v.Key, "C05"), v.What, v.Lines...)
+						if k, ok := c01DaemonKeys[v.Key]; ok {
+							c.Violate(k, v.What, v.Lines...)
 						}
 					}
 					return l, o
@@ -65,6 +69,14 @@ func init() {
 			},
 		})
 	}
+}
+
+// the daemon world's monitors that are about C01 (one address, one pod; a repeated ADD gets the address the pod holds)
+var c01DaemonKeys = map[string]string{
+	"C05/double-allocation":               "C01/daemon/double-allocation",
+	"C05/restart/binding-lost":            "C01/daemon/restart/binding-lost",
+	"C05/restart/two-records-one-address": "C01/daemon/restart/two-records-one-address",
+	"C04/repeat-add/different-address":    "C01/daemon/repeat-add/different-address",
 }
 
 func runPoolWorlds(c *Ctx, focus string, replay []string) (lines, outs []string) {
